@@ -80,6 +80,8 @@ def check_history(ctx, sc):
             trs = [e[3][2] for e in ev if e[2] == "EVT_FSM_TRANSITION"]
             last_fsm = [e[3] for e in ev if e[2] == "EVT_FSM_TRANSITION"][-1:] or [None]
             key = f"{name}:killed-before-first-pdu" if set(trs) <= {"AE-5"} else f"{name}:last={last_fsm[0][2]}"
+            if name == "requestor" and set(trs) <= {"AE-1"}:
+                key = "requestor:killed-during-first-action"  # stop_dul() saw Sta1 while AE-1 (connect) was in progress
             if name == "requestor" and any(e[3][0] == "Sta5" and e[3][2] == "AA-8" for e in ev if e[2] == "EVT_FSM_TRANSITION"):
                 key = "requestor:provider-abort-in-Sta5"  # one root cause: _negotiate_as_requestor stops the provider while it waits in Sta13
             ctx.fail("conn-close-missing", key, f"{name}: connection opened but EVT_CONN_CLOSE never fired; history {_hist(ev)}")
